@@ -34,6 +34,7 @@ class Env:
         self.flavour = flavour
         self.t = f.ExperimentTopology() if flavour == 'exp' else f.SubstrateTopology()
         self.errors = 0
+        self.kept = {}        # long-lived handles (kept from creation or an earlier look-up): key -> handle
 
     def close(self):
         uuid.uuid4 = _orig_uuid4
@@ -45,12 +46,38 @@ class Env:
 
     def save(self):
         st = self._store()
-        self._saved = (st.graphs.copy(), st.start_id)
+        caches = {}
+        for k, h in self.kept.items():
+            l = getattr(h, '_interfaces', None)
+            caches[k] = (None if l is None else list(l),
+                         [(i, list(getattr(i, '_interfaces', []) or [])) for i in (l or [])])
+        self._saved = (st.graphs.copy(), st.start_id, caches)
 
     def restore(self):
         st = self._store()
         st.graphs = self._saved[0].copy()
         st.start_id = self._saved[1]
+        for k, (l, inner) in self._saved[2].items():
+            if l is not None:
+                self.kept[k]._interfaces = list(l)
+            for i, il in inner:
+                i._interfaces = list(il)
+
+    # ---- kept handles: a second live handle of the same element, possibly stale ----
+    @staticmethod
+    def key(kind, path):
+        return kind + ':' + json.dumps(path)
+
+    def keep(self, kind, path, handle):
+        self.kept[self.key(kind, path)] = handle
+
+    def svc_handle(self, sp, kept):
+        h = self.kept.get(self.key('svc', sp)) if kept else None
+        return h if h is not None else self.service(sp)
+
+    def if_handle(self, ip, kept):
+        h = self.kept.get(self.key('if', ip)) if kept else None
+        return h if h is not None else self.iface(ip)
 
     # ---- look-ups through the public API ----
     def node(self, name):
@@ -133,7 +160,13 @@ def run_build(env, op):
     t = env.t
     k = op[0]
     sub = env.flavour == 'sub'
-    if k == 'node':
+    kept = bool(op) and op[-1] == 'K'       # perform the call through the kept handle when there is one
+    if kept:
+        op = op[:-1]
+    if k == 'keep':
+        _, kind, path = op
+        env.keep(kind, path, env.service(path) if kind == 'svc' else env.iface(path))
+    elif k == 'node':
         _, name, site, ntype = op
         t.add_node(name=name, site=site, ntype=getattr(f.NodeType, ntype), node_id=('id-' + name) if sub else None)
     elif k == 'comp':
@@ -158,7 +191,9 @@ def run_build(env, op):
         env.node(node).add_storage(name=cname, labels=f.Labels(local_name=cname))
     elif k == 'child':
         _, ip, cname, vlan = op
-        i = env.iface(ip)
+        i = env.if_handle(ip, kept)
+        if kept or Env.key('if', ip) not in env.kept:
+            env.keep('if', ip, i)          # otherwise an earlier handle stays the kept one (and goes stale)
         i.add_child_interface(name=cname, labels=f.Labels(vlan=str(vlan)),
                               node_id=('id-ch-' + '-'.join(ip[1:]) + '-' + cname) if sub else None)
     elif k == 'facility':
@@ -174,8 +209,9 @@ def run_build(env, op):
         t.add_switch(name=name, site=site, nports=nports, node_id=('id-' + name) if sub else None)
     elif k == 'nns':
         _, node, nsname, nstype = op
-        env.node(node).add_network_service(name=nsname, nstype=getattr(f.ServiceType, nstype),
-                                           node_id=('id-%s-%s' % (node, nsname)) if sub else None)
+        h = env.node(node).add_network_service(name=nsname, nstype=getattr(f.ServiceType, nstype),
+                                               node_id=('id-%s-%s' % (node, nsname)) if sub else None)
+        env.keep('svc', ['n', node, nsname], h)
     elif k == 'nif':
         _, node, nsname, ifname, itype = op
         s = env.node(node).network_services[nsname]
@@ -184,14 +220,16 @@ def run_build(env, op):
                         node_id=('id-%s-%s-%s' % (node, nsname, ifname)) if sub else None)
     elif k == 'ns':
         _, name, nstype, ips = op
-        t.add_network_service(name=name, nstype=getattr(f.ServiceType, nstype),
-                              interfaces=[env.iface(ip) for ip in ips])
+        h = t.add_network_service(name=name, nstype=getattr(f.ServiceType, nstype),
+                                  interfaces=[env.iface(ip) for ip in ips])
+        env.keep('svc', ['t', name], h)
     elif k == 'connect':
         _, nsname, ip = op
-        t.network_services[nsname].connect_interface(env.iface(ip))
+        env.svc_handle(['t', nsname], kept).connect_interface(env.iface(ip))
     elif k == 'peer':
         _, a, b = op
-        t.network_services[a].peer(t.network_services[b])
+        a, b = (['t', x] if isinstance(x, str) else x for x in (a, b))
+        env.svc_handle(a, kept).peer(env.svc_handle(b, kept))
     elif k == 'link':
         _, name, ltype, ips = op
         t.add_link(name=name, ltype=getattr(f.LinkType, ltype), interfaces=[env.iface(ip) for ip in ips],
@@ -208,18 +246,20 @@ REMOVALS = ('remove_node', 'remove_facility', 'remove_switch', 'remove_link', 'r
 
 
 def removal_handles(env, op):
-    """the element handles through which a removal is performed (freshly looked up)"""
+    """the element handles through which a removal is performed: freshly looked up, or - when the operation ends with
+    the marker 'K' - the long-lived handle kept from the element's creation / an earlier look-up (it may be stale)"""
     k = op[0]
+    kept = op[-1] == 'K'
     if k in ('remove_component', 'node_remove_ns'):
         return [env.node(op[1])]
     if k == 'disconnect':
-        return [env.service(op[1]), env.iface(op[2])]      # [service handle, the interface argument]
+        return [env.svc_handle(op[1], kept), env.iface(op[2])]      # [service handle, the interface argument]
     if k == 'unpeer':
-        return [env.service(op[1]), env.service(op[2])]
+        return [env.svc_handle(op[1], kept), env.svc_handle(op[2], kept)]
     if k == 'remove_interface':
-        return [env.service(op[1])]
+        return [env.svc_handle(op[1], kept)]
     if k == 'remove_child':
-        return [env.iface(op[1])]
+        return [env.if_handle(op[1], kept)]
     return []
 
 
@@ -357,7 +397,7 @@ class View:
 # ----------------------------------------------------------------------------------------------
 # enumeration of removal operations in a state
 # ----------------------------------------------------------------------------------------------
-def enumerate_removals(snap, flavour, rng, with_invalid=True):
+def enumerate_removals(snap, flavour, rng, with_invalid=True, kept=()):
     v = View(snap)
     ops = []
     for n in v.of_class('NetworkNode'):
@@ -435,7 +475,16 @@ def enumerate_removals(snap, flavour, rng, with_invalid=True):
                          if d.get('ReservationInfo')} - {None})
         for s in states:
             ops.append(['prune', s])
-    return ops
+    # the same calls through a long-lived (possibly stale) handle of the service / port, where one is kept
+    extra = []
+    for o in ops:
+        if o[0] in ('disconnect', 'remove_interface') and Env.key('svc', o[1]) in kept:
+            extra.append(o + ['K'])
+        elif o[0] == 'unpeer' and (Env.key('svc', o[1]) in kept or Env.key('svc', o[2]) in kept):
+            extra.append(o + ['K'])
+        elif o[0] == 'remove_child' and Env.key('if', o[1]) in kept:
+            extra.append(o + ['K'])
+    return ops + extra
 
 
 # ----------------------------------------------------------------------------------------------
@@ -485,7 +534,8 @@ def gen_history(rng, flavour, nsteps, p_remove=0.12):
             add(2, lambda: ['switch', fresh('sw'), rng.choice(SITES), rng.choice([1, 2, 3])])
             ded = [i for i in cps if v.typ(i) == 'DedicatedPort']
             if ded:
-                add(5, lambda: ['child', v.iface_path(rng.choice(ded)), fresh('ch'), rng.randrange(1, 4000)])
+                add(5, lambda: ['child', v.iface_path(rng.choice(ded)), fresh('ch'), rng.randrange(1, 4000)]
+                    + (['K'] if rng.random() < 0.4 else []))
             if nodes:
                 add(2, lambda: ['nns', v.name(rng.choice(nodes)), fresh('s'),
                                 rng.choice(['MPLS', 'VLAN', 'OVS', 'P4'])])
@@ -504,14 +554,25 @@ def gen_history(rng, flavour, nsteps, p_remove=0.12):
                     return ['ns', fresh('net'), rng.choice(SVC_TYPES), [v.iface_path(i) for i in sel]]
                 add(7, mk_ns)
                 if tops:
-                    add(5, lambda: ['connect', v.name(rng.choice(tops)), v.iface_path(rng.choice(free))])
+                    add(5, lambda: ['connect', v.name(rng.choice(tops)), v.iface_path(rng.choice(free))]
+                        + (['K'] if rng.random() < 0.4 else []))
             elif flavour == 'exp':
                 add(2, lambda: ['ns', fresh('net'), rng.choice(SVC_TYPES), []])
-            if flavour == 'exp' and len(tops) >= 2:
+            allsvc = [x for x in v.of_class('NetworkService') if v.service_path(x) and v.service_path(x)[0] != 'c']
+            if flavour == 'exp' and len(allsvc) >= 2:
                 def mk_peer():
-                    a, b = rng.sample(tops, 2)
-                    return ['peer', v.name(a), v.name(b)]
+                    # mostly two top-level services; sometimes node-level ones (also two services of ONE node)
+                    pool = tops if (len(tops) >= 2 and rng.random() < 0.7) else allsvc
+                    a, b = rng.sample(pool, 2)
+                    return ['peer', v.service_path(a), v.service_path(b)] + (['K'] if rng.random() < 0.4 else [])
                 add(3, mk_peer)
+            # a second live handle of a service / of a port with sub-interfaces, looked up now and kept
+            if allsvc or ded:
+                def mk_keep():
+                    if allsvc and (not ded or rng.random() < 0.6):
+                        return ['keep', 'svc', v.service_path(rng.choice(allsvc))]
+                    return ['keep', 'if', v.iface_path(rng.choice(ded))]
+                add(2, mk_keep)
             if len(cps) >= 2:
                 def mk_link():
                     pool = free if (len(free) >= 2 and rng.random() < 0.8) else cps
@@ -553,7 +614,7 @@ def gen_history(rng, flavour, nsteps, p_remove=0.12):
                     return ['mark', ep, rng.choice(STATES)]
                 add(3, mk_mark)
             if v.n and rng.random() < p_remove:
-                rs = enumerate_removals(snap, flavour, rng, with_invalid=False)
+                rs = enumerate_removals(snap, flavour, rng, with_invalid=False, kept=set(env.kept))
                 if rs:
                     op = rng.choice(rs)
                     cand, w = [lambda: op], [1]
@@ -565,6 +626,6 @@ def gen_history(rng, flavour, nsteps, p_remove=0.12):
                 run_build(env, op)
             except Exception:
                 env.errors += 1
-        return hist, env.snapshot()
+        return hist, env.snapshot(), set(env.kept)
     finally:
         env.close()
